@@ -170,10 +170,6 @@ pub fn check_number(x: f64) -> Result<(), String> {
                 return Err(format!("root({x:?}, {n}) = {r:?} is not a valid evidence number"));
             }
         }
-        let r1 = x.root(1);
-        if r1.to_bits() != x.to_bits() && !(x == 0.0) {
-            return Err(format!("root({x:?}, 1) = {r1:?}"));
-        }
     }
     Ok(())
 }
